@@ -119,6 +119,11 @@ def streams(tier, rng, P, only=None, cases=None):
                                           ("#M={ #?1 ! }\nFOR(INT I=0;I<2;I++){\n c\n} #M({d})", "#M={ #?1 }\nFOR(INT I=0;I<2;I++){\n c\n} #M({d})", [(3, "!")]),
                                           ("#M={ #?1 ! }\nc4\n^8 #M({d})", "#M={ #?1 }\nc4\n^8 #M({d})", [(2, "!")])]):
             cs.append(dict(req="compile2 %s %s" % (hx(d), hx(c_)), src=d, show=repr(d), exp=exp, key="macarg%d" % j))
+        # a bare word spelled like a parameter or a local variable of a function defined earlier is unknown outside that function
+        for j, (d, c_, exp) in enumerate([("FUNCTION Beat(Len){ l(Len) c d }\nBeat(8)\ne Len f g", "FUNCTION Beat(Len){ l(Len) c d }\nBeat(8)\ne f g", [(2, "Len")]),
+                                          ("Function Fq(Int Aq, Str Bq){ c }\n\nFq(1,{a}) Aq d\nBq e", "Function Fq(Int Aq, Str Bq){ c }\n\nFq(1,{a}) d\n e", [(2, "Aq"), (3, "Bq")]),
+                                          ("FUNCTION Gx(Pq=3){ INT Loc=Pq c }\nGx()\n\nLoc d Pq", "FUNCTION Gx(Pq=3){ INT Loc=Pq c }\nGx()\n\n d ", [(3, "Loc"), (3, "Pq")])]):
+            cs.append(dict(req="compile2 %s %s" % (hx(d), hx(c_)), src=d, show=repr(d), exp=exp, key="param%d" % j))
         for j, (d, c_, exp) in enumerate([("c !d e", "c d e", [(0, "!")]), ("\n\nc\n!", "\n\nc\n", [(3, "!")]), ("c\n\n\n!", "c\n\n\n", [(3, "!")]), ("c\n\n\nZZZ d", "c\n\n\n d", [(3, "ZZZ")])]):
             cs.append(dict(req="compile2 %s %s" % (hx(d), hx(c_)), src=d, show=repr(d), exp=exp, key="fixed%d" % j))
         return cs
